@@ -102,7 +102,31 @@ var c15FieldTypes = []reflect.Type{
 	reflect.TypeOf(bcl.Block{}), reflect.TypeOf((*bcl.Block)(nil)),
 }
 
+// c15Foreign: values the VM never produces but a hand-built block may carry.
+func c15Foreign(r *rand.Rand) any {
+	x := 5
+	blkv := bcl.Block{Type: "sub", Fields: map[string]any{"x": 1}}
+	vals := []any{
+		int64(7), int8(-3), uint(9), uint8(200), float32(1.5), complex(1, 2), Named(3), 'r',
+		[]byte("ab"), []int{1, 2}, []string{}, []any{1, "s"}, [2]int{1, 2}, map[string]any{"k": 1}, map[string]int{},
+		&x, &blkv, []bcl.Block{blkv}, make(chan int), struct{ X int }{4}, struct{}{}, A{X: 2},
+		// same underlying type as Block, but not Block
+		struct {
+			Type, Name string
+			Fields     map[string]any
+		}{"sub", "", map[string]any{"x": 1}},
+		struct {
+			Type, Name string
+			Fields     map[string]any
+		}{},
+	}
+	return vals[r.Intn(len(vals))]
+}
+
 func c15Value(r *rand.Rand, depth int) any {
+	if r.Intn(12) == 0 {
+		return c15Foreign(r)
+	}
 	switch k := r.Intn(12); {
 	case k < 3:
 		return r.Intn(100) - 50
@@ -384,7 +408,15 @@ func checkStored(b bcl.Block, v reflect.Value) (problem string, skip bool) {
 			}
 		default:
 			got := fv.Interface()
-			if !reflect.DeepEqual(got, want) || reflect.TypeOf(got) != reflect.TypeOf(want) && fv.Kind() != reflect.Interface {
+			wv := reflect.ValueOf(want)
+			if !wv.Type().AssignableTo(fv.Type()) {
+				return fmt.Sprintf("field %q: a %T is not assignable to the %s destination, yet Bind returned nil (struct holds %#v)", k, want, fv.Type(), got), false
+			}
+			if fv.Kind() != reflect.Interface {
+				// an assignable destination of another (unnamed/named twin) type holds the same value under its own type
+				want = wv.Convert(fv.Type()).Interface()
+			}
+			if !reflect.DeepEqual(got, want) {
 				return fmt.Sprintf("field %q: struct holds %#v (%T), block has %#v (%T): coerced or dropped", k, got, got, want, want), false
 			}
 		}
@@ -658,7 +690,7 @@ func init() {
 		Level: "exploration",
 		Rule: "crash + post-condition monitor over generated (binding, target) pairs: bindings {nil, struct, slice (0-3 blocks, empty)} whose blocks hold int/float/string/bool/NIL values and nested blocks to depth 3, keys that collide after folding, named children; targets: a type derived from the block (by name or by tag), the same with fields retyped to one of 24 kinds (wider ints, pointers, interfaces, arrays, maps, slices, funcs, chans, structs, Block) or removed, the wrong kind for the binding, " +
 			"zoo types with embedded, unexported, pointer and interface fields, and 28 hostile non-struct targets (nil, non-pointers, typed nil pointers, pointers to every kind, slices of non-structs, named non-struct type matching the block type). Required: no panic; after nil, every field of every block and its non-empty name found unchanged (value and dynamic type) in the exported field the harness's own matching rule designates, nested blocks recursively; after an error a slice target deep-equals its snapshot. " +
-			"distinct = hash(binding, target type); non-trivial = Bind returned (nil or error) and the post-condition was examined Also: hand-built bindings nested 10..39 levels; destinations that are already filled in (interface holding a struct by value or pointer, non-nil pointers); zoo types with embedded pointers, an embedded struct in front of tagged fields, digit/underscore names; keys containing control bytes; blocks take a named target's type name in 3 of 4 cases.",
+			"distinct = hash(binding, target type); non-trivial = Bind returned (nil or error) and the post-condition was examined Also: hand-built bindings nested 10..39 levels; destinations that are already filled in (interface holding a struct by value or pointer, non-nil pointers); zoo types with embedded pointers, an embedded struct in front of tagged fields, digit/underscore names; keys containing control bytes; blocks take a named target's type name in 3 of 4 cases; 1 field value in 12 is a Go value the VM never produces (sized ints, float32, complex, named int, slices, arrays, maps, pointers, *Block, []Block, chan, structs, and an unnamed struct type with Block's underlying type).",
 		Assumptions:   []string{"when two keys of one block designate the same struct field only 'no panic' is claimed (DESIGN §6 C15)"},
 		MinNontrivial: 1000,
 		Run: func(c *core.Ctx) {
